@@ -280,6 +280,10 @@ def run_case(rec, si, bi, sched, seed, g=None):
     rs = RULESETS[(sched + si // 3) % len(RULESETS)]
     route = ROUTES[(sched + si) % 5]
     das = build_inputs(sig, binding, sched + si, seed)
+    fills_integral = all(float(rule_for(rs, ax)[1]).is_integer() for ax in ("X", "Y"))
+    if (si + sched) % 5 == 4 and fills_integral:
+        # the same (integral) values held in an integer dtype
+        das = [d.astype(np.int64) for d in das]
     bw_real = {binding[n_]: w for n_, w in bw_dummy.items()}
     loop_dims, arranged, out_lengths = reference(sig, binding, das, bw_real, rs)
     nontriv = any(w != (0, 0) for w in bw_dummy.values()) or len(ins) >= 2
